@@ -70,6 +70,16 @@ def get_filesystem(path: str) -> 'FileSystem[Any]':
     raise ValueError(f'Unrecognised filesystem for "{path}"')
 
 
+def _folder_prefix(folder: str) -> str:
+    """Convert a normalised folder name into the prefix shared by the files inside it.
+
+    The root folder produces an empty prefix, anything else ends with exactly one slash
+    so that 'mat' does not match 'materials/...'.
+    """
+    folder = folder.rstrip('/')
+    return folder + '/' if folder else ''
+
+
 class RootEscapeError(ValueError):
     """Raised when a path tries to refer to a file outside the root of a filesystem."""
     root: str
@@ -477,6 +487,7 @@ class VirtualFileSystem(FileSystem[str]):
         if folder == '.':
             # normpath() turns the empty (root) folder into '.', which only dot-files start with.
             folder = ''
+        folder = _folder_prefix(folder)
 
         # Compare the normalised keys, the folder has been normalised too.
         for key, (filename, data) in self._mapping.items():
@@ -591,7 +602,7 @@ class ZipFileSystem(FileSystem[ZipInfo]):
     def walk_folder(self, folder: str = '') -> Iterator[File[Self]]:
         """Yield files in a folder."""
         # \\ is not allowed in zips.
-        folder = folder.replace('\\', '/').casefold()
+        folder = _folder_prefix(folder.replace('\\', '/').casefold())
         for filename, fileinfo in self._name_to_info.items():
             if filename.startswith(folder):
                 yield File(self, fileinfo.filename, fileinfo)
@@ -671,7 +682,7 @@ class VPKFileSystem(FileSystem[VPKFile]):
     def walk_folder(self, folder: str = '') -> Iterator[File[Self]]:
         """Yield files in a folder."""
         # All VPK files use forward slashes. Compare the case-folded keys, like lookups do.
-        folder = folder.replace('\\', '/').casefold()
+        folder = _folder_prefix(folder.replace('\\', '/').casefold())
         for key, file in self._name_to_file.items():
             if key.startswith(folder):
                 yield File(self, file.filename, file)
